@@ -539,6 +539,7 @@ func TestVerifC09(t *testing.T) {
 
 	// ---- end to end through rest.Server (sample)
 	kit.Run(t, "C09", "e2e", kit.N(2, 20), func(c *kit.Case) { e2e(c) })
+	kit.Run(t, "C09", "e2e-groups", kit.N(16, 120), func(c *kit.Case) { e2eGroups(c) })
 	kit.End()
 }
 
